@@ -23,5 +23,6 @@ def P : NB.Params where
   mulSlack := mulSlack
   bigBase := bigBase
   window := window
+  squarings := squarings
 
 end NB.Gen
